@@ -438,35 +438,35 @@ theorem run_pq (ho : o.Lawful) (ops : List Op) : PU (run o c ops) ∧ QP o (run 
 
 /-! ### who can be granted: only blocked calls -/
 
-/-- a completion event is either the grant of a call blocked in `s` or an error answer -/
+/-- a completion event is the grant of, or an error answer to, a call blocked in `s` -/
 def EvOk (s : St M) (ev : Event) : Prop :=
-  (∃ p ∈ s.pending, ev = .done p.req true p.key none) ∨ (∃ r k e, ev = .done r false k (some e))
+  (∃ p ∈ s.pending, ev = .done p.req true p.key none) ∨ (∃ p ∈ s.pending, ∃ e, ev = .done p.req false p.key (some e))
 
 theorem EvOk.mono {s s' : St M} {ev : Event} (h : EvOk s' ev) (hsub : ∀ p ∈ s'.pending, p ∈ s.pending) : EvOk s ev := by
-  rcases h with ⟨p, hp, e⟩ | h
+  rcases h with ⟨p, hp, e⟩ | ⟨p, hp, e⟩
   · exact Or.inl ⟨p, hsub p hp, e⟩
-  · exact Or.inr h
+  · exact Or.inr ⟨p, hsub p hp, e⟩
 
 theorem evok_mgrUnlock {s : St M} (h : QP o s) (n k : Str) : ∀ ev ∈ (mgrUnlock o s n k).2.2.2, EvOk s ev :=
   fun ev hev => Or.inl (mgrUnlock_events_pending h n k ev hev)
 
 theorem evok_abandonAll (ps : List Pending) (e : Err) : ∀ (s : St M) (ev0 : List Event) (s0 : St M),
-    (∀ ev ∈ ev0, EvOk s0 ev) →
+    (∀ p ∈ ps, p ∈ s0.pending) → (∀ ev ∈ ev0, EvOk s0 ev) →
     ∀ ev ∈ (ps.foldl (fun (acc : St M × List Event) p =>
       let (s', ev) := abandon o acc.1 p e
       (s', acc.2 ++ ev)) (s, ev0)).2, EvOk s0 ev := by
   induction ps with
-  | nil => intro s ev0 s0 h; exact h
+  | nil => intro s ev0 s0 _ h; exact h
   | cons p ps ih =>
-    intro s ev0 s0 h
+    intro s ev0 s0 hps h
     simp only [List.foldl_cons]
-    apply ih
+    apply ih _ _ _ (fun x hx => hps x (List.mem_cons_of_mem _ hx))
     intro ev hev
     rcases List.mem_append.mp hev with hev | hev
     · exact h ev hev
     · right
       simp only [abandon, List.mem_singleton] at hev
-      exact ⟨_, _, _, hev⟩
+      exact ⟨p, hps p (by simp), _, hev⟩
 
 theorem abandonAll_pending_sub (ps : List Pending) (e : Err) : ∀ (s : St M) (ev0 : List Event),
     ∀ p ∈ (ps.foldl (fun (acc : St M × List Event) p =>
@@ -555,7 +555,7 @@ theorem evok_advanceTo (ho : o.Lawful) (target : Nat) : ∀ (fuel : Nat) (s : St
               rcases List.mem_append.mp hev with h1 | h2
               · right
                 simp only [abandon, List.mem_singleton] at h1
-                exact ⟨_, _, _, h1⟩
+                exact ⟨p, hm, _, h1⟩
               · have := ih _ (pu_abandon hu0 p .waitTimeout) (abandon_q ho hu0 h0 p .waitTimeout (Or.inl hm)) ev h2
                 exact this.mono (fun x hx => pending_abandon (o := o) ({ s with now := max s.now t } : St M) p _ x hx)
             · rcases List.mem_append.mp hev with h1 | h2
@@ -580,7 +580,7 @@ theorem step_evok (ho : o.Lawful) {s : St M} (hu : PU s) (h : QP o s) (op : Op) 
     simp only [step]
     intro ev hev
     rcases List.mem_append.mp hev with h1 | h2
-    · exact evok_abandonAll (o := o) _ _ s [] s (by intro ev hev; cases hev) ev h1
+    · exact evok_abandonAll (o := o) _ _ s [] s (fun p hp => (List.mem_filter.mp hp).1) (by intro ev hev; cases hev) ev h1
     · have hok : ∀ p ∈ s.pending.filter (fun p => p.sid = sid), Okp p s := fun p hp => Or.inl (List.mem_filter.mp hp).1
       have := evok_destroy (c := c) ho (pu_abandonAll _ _ [] hu) (abandonAll_q ho _ _ [] hu h hok) sid ev h2
       exact this.mono (abandonAll_pending_sub _ _ s [])
@@ -615,7 +615,7 @@ theorem step_evok (ho : o.Lawful) {s : St M} (hu : PU s) (h : QP o s) (op : Op) 
     simp only [step]
     unfold restart
     simp only
-    exact evok_abandonAll (o := o) _ _ s [] s (by intro ev hev; cases hev)
+    exact evok_abandonAll (o := o) _ _ s [] s (fun p hp => hp) (by intro ev hev; cases hev)
   | ipcUnlock n k ch =>
     simp only [step]
     split
@@ -629,10 +629,11 @@ theorem step_evok (ho : o.Lawful) {s : St M} (hu : PU s) (h : QP o s) (op : Op) 
     simp only [step]
     split
     · intro ev hev; cases hev
-    · intro ev hev
+    · rename_i p hf
+      intro ev hev
       right
       simp only [abandon, List.mem_singleton] at hev
-      exact ⟨_, _, _, hev⟩
+      exact ⟨p, List.mem_of_find?_eq_some hf, _, hev⟩
 
 /-! ### a call that has left the blocked set stays out, and is never granted -/
 
@@ -642,14 +643,19 @@ def Gone (q : Nat) (s : St M) : Prop := q < s.nreq ∧ ∀ p ∈ s.pending, p.re
 theorem Gone.shrink {q : Nat} {s s' : St M} (h : Gone q s) (r : Shr s s') : Gone q s' :=
   ⟨Nat.lt_of_lt_of_le h.1 r.2, fun p hp => h.2 p (r.1.subset hp)⟩
 
-theorem Gone.not_granted {q : Nat} {s : St M} (h : Gone q s) {ev : Event} (he : EvOk s ev) (k : Str) (e : Option Err) :
-    ev ≠ .done q true k e := by
+theorem Gone.not_answered {q : Nat} {s : St M} (h : Gone q s) {ev : Event} (he : EvOk s ev) (b : Bool) (k : Str) (e : Option Err) :
+    ev ≠ .done q b k e := by
   intro heq
-  rcases he with ⟨p, hp, e1⟩ | ⟨r, k', e', e1⟩
+  rcases he with ⟨p, hp, e1⟩ | ⟨p, hp, e', e1⟩
   · rw [heq] at e1
     cases e1
     exact h.2 p hp rfl
-  · rw [heq] at e1; cases e1
+  · rw [heq] at e1
+    cases e1
+    exact h.2 p hp rfl
+
+theorem Gone.not_granted {q : Nat} {s : St M} (h : Gone q s) {ev : Event} (he : EvOk s ev) (k : Str) (e : Option Err) :
+    ev ≠ .done q true k e := h.not_answered he true k e
 
 theorem gone_blocks (q : Nat) : Blocks (o := o) (c := c) (Gone q) where
   connect := by
@@ -773,5 +779,292 @@ theorem shr_destroy (s : St M) (sid : Sid) : Shr s (destroy o c s sid).1 := by
     split
     · exact Shr.same rfl rfl
     · exact Shr.trans (Shr.same (s' := save { s with sessions := del s.sessions sid }) rfl rfl) (shr_clearHolds _ _ [])
+
+/-! ### an answered call leaves the blocked set in the same operation -/
+
+/-- the request numbers of these events are not blocked in `s` -/
+def EvGone (s : St M) (evs : List Event) : Prop :=
+  ∀ ev ∈ evs, ∀ q b k e, ev = Event.done q b k e → ∀ x ∈ s.pending, x.req ≠ q
+
+theorem EvGone.mono {s s' : St M} {evs : List Event} (h : EvGone s evs) (hsub : ∀ p ∈ s'.pending, p ∈ s.pending) : EvGone s' evs :=
+  fun ev hev q b k e heq x hx => h ev hev q b k e heq x (hsub x hx)
+
+theorem EvGone.append {s : St M} {a b : List Event} (ha : EvGone s a) (hb : EvGone s b) : EvGone s (a ++ b) := by
+  intro ev hev
+  rcases List.mem_append.mp hev with h | h
+  · exact ha ev h
+  · exact hb ev h
+
+theorem evgone_nil (s : St M) : EvGone s [] := fun ev hev => by cases hev
+
+theorem evgone_handOver (s : St M) (n : Str) (r : LockRec) : EvGone (handOver o s n r).1 (handOver o s n r).2 := by
+  unfold handOver
+  split
+  · exact evgone_nil _
+  · rename_i p q' _
+    intro ev hev q b k e heq x hx
+    simp only [List.mem_singleton] at hev
+    rw [hev] at heq
+    cases heq
+    simp only at hx
+    rw [pending_book] at hx
+    have := (List.mem_filter.mp hx).2
+    simpa using this
+
+theorem evgone_mgrUnlock (s : St M) (n k : Str) : EvGone (mgrUnlock o s n k).1 (mgrUnlock o s n k).2.2.2 := by
+  unfold mgrUnlock
+  split
+  · exact evgone_nil _
+  · simp only
+    split
+    · exact evgone_handOver _ _ _
+    · exact evgone_nil _
+
+theorem evgone_abandon (s : St M) (p : Pending) (e : Err) : EvGone (abandon o s p e).1 (abandon o s p e).2 := by
+  intro ev hev q b k e' heq x hx
+  simp only [abandon, List.mem_singleton] at hev
+  rw [hev] at heq
+  cases heq
+  unfold abandon at hx
+  have := (List.mem_filter.mp hx).2
+  simpa using this
+
+theorem evgone_abandonAll (ps : List Pending) (e : Err) : ∀ (s : St M) (ev0 : List Event), EvGone s ev0 →
+    EvGone (ps.foldl (fun (acc : St M × List Event) p =>
+      let (s', ev) := abandon o acc.1 p e
+      (s', acc.2 ++ ev)) (s, ev0)).1 (ps.foldl (fun (acc : St M × List Event) p =>
+      let (s', ev) := abandon o acc.1 p e
+      (s', acc.2 ++ ev)) (s, ev0)).2 := by
+  induction ps with
+  | nil => intro s ev0 h; exact h
+  | cons p ps ih =>
+    intro s ev0 h
+    simp only [List.foldl_cons]
+    apply ih
+    exact (h.mono (pending_abandon s p e)).append (evgone_abandon s p e)
+
+theorem evgone_clearHolds (hs : List Hold) : ∀ (s : St M) (ev0 : List Event), EvGone s ev0 →
+    EvGone (hs.foldl (fun (acc : St M × List Event) h =>
+      let (s', ok, _, ev) := mgrUnlock o acc.1 h.name h.key
+      let s' := if ok then { s' with timers := del s'.timers (tkey h.name h.key) } else s'
+      (s', acc.2 ++ ev)) (s, ev0)).1 (hs.foldl (fun (acc : St M × List Event) h =>
+      let (s', ok, _, ev) := mgrUnlock o acc.1 h.name h.key
+      let s' := if ok then { s' with timers := del s'.timers (tkey h.name h.key) } else s'
+      (s', acc.2 ++ ev)) (s, ev0)).2 := by
+  induction hs with
+  | nil => intro s ev0 h; exact h
+  | cons x hs ih =>
+    intro s ev0 h
+    simp only [List.foldl_cons]
+    apply ih
+    have h1 : EvGone (mgrUnlock o s x.name x.key).1 (ev0 ++ (mgrUnlock o s x.name x.key).2.2.2) :=
+      (h.mono (pending_mgrUnlock s x.name x.key)).append (evgone_mgrUnlock s x.name x.key)
+    split
+    · exact h1.mono (fun p hp => hp)
+    · exact h1
+
+theorem evgone_destroy (s : St M) (sid : Sid) : EvGone (destroy o c s sid).1 (destroy o c s sid).2 := by
+  unfold destroy
+  split
+  · exact evgone_nil _
+  · simp only
+    split
+    · exact evgone_nil _
+    · exact evgone_clearHolds _ _ [] (evgone_nil _)
+
+theorem evgone_advanceTo (target : Nat) : ∀ (fuel : Nat) (s : St M),
+    EvGone (advanceTo o c target fuel s).1 (advanceTo o c target fuel s).2.1 := by
+  intro fuel
+  induction fuel with
+  | zero => intro s; simp only [advanceTo]; exact evgone_nil _
+  | succ f ih =>
+    intro s
+    unfold advanceTo
+    simp only
+    split
+    · exact evgone_nil _
+    · split
+      · exact evgone_nil _
+      · rename_i t _ _
+        simp only
+        split
+        · split
+          · rename_i tk tm _
+            refine EvGone.append ?_ (ih _)
+            have h1 : EvGone (fireLease o ({ s with now := max s.now t } : St M) tk tm).1 (fireLease o ({ s with now := max s.now t } : St M) tk tm).2 := by
+              unfold fireLease
+              simp only
+              exact (evgone_mgrUnlock ({ s with now := max s.now t } : St M) tm.name tm.key).mono (fun p hp => hp)
+            exact h1.mono (advanceTo_pending_sub target f _)
+          · exact (evgone_nil _).append (ih _)
+        · split
+          · split
+            · rename_i p d _
+              refine EvGone.append ?_ (ih _)
+              exact (evgone_abandon ({ s with now := max s.now t } : St M) p .waitTimeout).mono (advanceTo_pending_sub target f _)
+            · exact (evgone_nil _).append (ih _)
+          · exact (evgone_nil _).append (ih _)
+
+/-- **answered means gone**: the calls an operation answers are not blocked after it -/
+theorem step_evgone (s : St M) (op : Op) : EvGone (step o c s op).1 (step o c s op).2.events := by
+  cases op with
+  | connect sid => simp only [step]; split <;> exact evgone_nil _
+  | disconnect sid =>
+    simp only [step]
+    refine EvGone.append ?_ (evgone_destroy _ sid)
+    have h1 := evgone_abandonAll (o := o) (s.pending.filter (fun p => p.sid = sid)) .canceled s [] (evgone_nil _)
+    exact h1.mono (fun p hp => (shr_destroy (o := o) (c := c) _ sid).1.subset hp)
+  | tryLock sid n sz lt =>
+    simp only [step]
+    intro ev hev
+    unfold srvTryLock at hev
+    simp only at hev
+    repeat' split at hev
+    all_goals cases hev
+  | lock sid n sz lt wt =>
+    simp only [step]
+    intro ev hev
+    unfold srvLock at hev
+    simp only at hev
+    repeat' split at hev
+    all_goals cases hev
+  | unlock sid n k =>
+    simp only [step]
+    unfold srvUnlock
+    simp only
+    have h1 := evgone_mgrUnlock (o := o) ({ s with timers := del s.timers (tkey n k) } : St M) n k
+    split
+    · exact h1.mono (fun p hp => hp)
+    · exact h1
+  | renew n k t =>
+    simp only [step, srvRenew]
+    intro ev hev
+    repeat' split at hev
+    all_goals cases hev
+  | advance dt => simp only [step]; exact evgone_advanceTo _ _ s
+  | gc mi => simp only [step]; exact evgone_nil _
+  | restart =>
+    simp only [step]
+    intro ev hev q b k e heq x hx
+    rw [(restart_nreq_pending (o := o) (c := c) s).2] at hx
+    cases hx
+  | ipcUnlock n k ch =>
+    simp only [step]
+    split
+    · exact evgone_nil _
+    · unfold srvUnlock
+      simp only
+      rename_i k' _
+      have h1 := evgone_mgrUnlock (o := o) ({ s with timers := del s.timers (tkey n k') } : St M) n k'
+      split
+      · exact h1.mono (fun p hp => hp)
+      · exact h1
+  | cancel req =>
+    simp only [step]
+    split
+    · exact evgone_nil _
+    · exact evgone_abandon s _ .canceled
+
+/-! ### the request counter never goes back -/
+
+def NGe (n0 : Nat) (s : St M) : Prop := n0 ≤ s.nreq
+
+theorem NGe.shrink {n0 : Nat} {s s' : St M} (h : NGe n0 s) (r : Shr s s') : NGe n0 s' := Nat.le_trans h r.2
+
+theorem nge_blocks (n0 : Nat) : Blocks (o := o) (c := c) (NGe n0) where
+  connect := by
+    intro s sid h
+    simp only [step]
+    split
+    · exact h.shrink (Shr.same rfl rfl)
+    · exact h
+  abandon := by
+    intro s p e h
+    exact h.shrink ⟨by unfold abandon; exact List.filter_sublist, Nat.le_refl _⟩
+  destroy := by
+    intro s sid h
+    unfold destroy
+    split
+    · exact h
+    · simp only
+      have h1 : NGe n0 (save { s with sessions := del s.sessions sid }) := h.shrink (Shr.same rfl rfl)
+      split
+      · exact h1
+      · exact h1.shrink (shr_clearHolds _ _ [])
+  tryLock := by
+    intro s sid n sz lt h
+    have h0 : Shr s { s with nreq := s.nreq + 1 } := ⟨List.Sublist.refl _, Nat.le_succ _⟩
+    unfold srvTryLock
+    simp only
+    split
+    · exact h.shrink h0
+    · split
+      · exact h.shrink h0
+      · split
+        · exact h.shrink h0
+        · split
+          · exact h.shrink h0
+          · split
+            · exact h.shrink (Shr.trans h0 (Shr.trans (Shr.same (s' := { s with nreq := s.nreq + 1, locks := _ }) rfl rfl) (shr_book _ _ _ _ _ _)))
+            · exact h.shrink (Shr.trans h0 (Shr.same rfl rfl))
+  lock := by
+    intro s sid n sz lt wt h
+    have h0 : Shr s { s with nreq := s.nreq + 1 } := ⟨List.Sublist.refl _, Nat.le_succ _⟩
+    unfold srvLock
+    simp only
+    split
+    · exact h.shrink h0
+    · split
+      · exact h.shrink h0
+      · split
+        · exact h.shrink h0
+        · split
+          · exact h.shrink h0
+          · split
+            · exact h.shrink h0
+            · split
+              · exact h.shrink (Shr.trans h0 (Shr.trans (Shr.same (s' := { s with nreq := s.nreq + 1, locks := _ }) rfl rfl) (shr_book _ _ _ _ _ _)))
+              · show n0 ≤ s.nreq + 1
+                have : n0 ≤ s.nreq := h
+                omega
+  unlock := by
+    intro s n k h
+    unfold srvUnlock
+    simp only
+    have := (h.shrink (Shr.same (s' := { s with timers := del s.timers (tkey n k) }) rfl rfl)).shrink (shr_mgrUnlock (o := o) _ n k)
+    split
+    · exact this.shrink (Shr.same rfl rfl)
+    · exact this
+  renew := by
+    intro s n k t h
+    unfold srvRenew
+    split
+    · exact h
+    · split
+      · exact h
+      · exact h.shrink (Shr.same rfl rfl)
+  tick := by intro s t h; exact h.shrink (Shr.same rfl rfl)
+  fire := by
+    intro s tk tm _ h
+    unfold fireLease
+    simp only
+    exact (h.shrink (shr_mgrUnlock (o := o) s tm.name tm.key)).shrink (Shr.same rfl rfl)
+  gc := by intro s mi g h; exact h.shrink (Shr.same rfl rfl)
+
+
+theorem step_nreq_mono (s : St M) (op : Op) : s.nreq ≤ (step o c s op).1.nreq :=
+  (nge_blocks s.nreq).step (fun t ht => by
+    show s.nreq ≤ (restart o c t).1.nreq
+    rw [(restart_nreq_pending (o := o) (c := c) t).1]; exact ht) (Nat.le_refl _) op
+
+/-- **answered means gone**, as a `Gone` fact: a call an operation answers was blocked before it (so its number is
+below the counter) and is not blocked after it -/
+theorem step_answered_gone (ho : o.Lawful) {s : St M} (hu : PU s) (h : QP o s) (op : Op) (q : Nat) (b : Bool) (k : Str) (e : Option Err)
+    (hev : Event.done q b k e ∈ (step o c s op).2.events) : Gone q (step o c s op).1 := by
+  have hlt : q < s.nreq := by
+    rcases step_evok ho hu h op _ hev with ⟨p, hp, e1⟩ | ⟨p, hp, _, e1⟩
+    · cases e1; exact hu.2 p hp
+    · cases e1; exact hu.2 p hp
+  exact ⟨Nat.lt_of_lt_of_le hlt (step_nreq_mono s op), step_evgone s op _ hev q b k e rfl⟩
 
 end Ldlm.Core
